@@ -1,8 +1,295 @@
-//! Implementation side of driver op `num` (see /verif/CONTRIBUTING.md).
+//! Implementation side of driver op `num` (see /verif/CONTRIBUTING.md), property C06.
+//!
+//! `num op <name> <bits16>*`   evaluate the operator / builtin `<name>` of the real
+//!                             evaluator; the operands travel as IEEE bit patterns and
+//!                             enter the program as external variables (no literal, no
+//!                             printing involved); answer `ok <bits16>` | `err <Kind>`.
+//! `num conv <i>`              an integer-valued conversion site producing `i`.
+//! `num lex <hextext>`         first token of the real lexer: `ok <digits> <exp> <hexrest>`.
+//! `num lit <hextext>`         evaluate the text as a Jsonnet program (a literal).
+//! `num litvalue <hextext>`    same (the model answers from the specification instead).
+//! `num dec|parseint|radix|yaml ..`  std.parseJson / parseInt / parseOctal,parseHex / parseYaml.
+//! `num show <bits16>`         manifested text of the number: `ok <hextext>`.
+//! `num shortest <bits16> <hextext>`  `true` iff `<hextext>` is the manifested text.
+//! `num eval <hexsrc>`         evaluate arbitrary source: `ok <bits16>` | `nonnum <type>` | `err <Kind>`.
 #![allow(unused_imports, dead_code)]
+use crate::ops_eval::{eval_err, load_err, Cb};
 use crate::util::*;
+use rsjsonnet_lang::arena::Arena;
+use rsjsonnet_lang::interner::StrInterner;
+use rsjsonnet_lang::lexer::{LexError, Lexer};
+use rsjsonnet_lang::program::{EvalErrorKind, Program, Value};
+use rsjsonnet_lang::span::SpanManager;
+use rsjsonnet_lang::token::TokenKind;
 
-/// `num <args...>`: one canonical answer line, or `None` for a malformed request.
-pub fn handle(_args: &[&str]) -> Option<String> {
-    None
+enum Var {
+    Num(f64),
+    Arr(Vec<f64>),
+    Str(String),
+}
+
+fn bits(s: &str) -> Option<f64> {
+    if s.len() != 16 {
+        return None;
+    }
+    u64::from_str_radix(s, 16).ok().map(f64::from_bits)
+}
+
+fn kind_name(e: &rsjsonnet_lang::program::EvalError) -> String {
+    match &e.kind {
+        EvalErrorKind::Other { message, .. } if message.contains("number overflow") => {
+            "NumberOverflow".into()
+        }
+        k => variant_name(k),
+    }
+}
+
+enum Res {
+    Num(f64),
+    NonNum(String),
+    Err(String),
+}
+
+fn eval_vars(src: &str, vars: &[(&str, Var)], want_text: bool) -> (Res, Option<String>) {
+    let arena = Arena::new();
+    let mut program = Program::new(&arena);
+    let mut cb = Cb::new();
+    for (name, v) in vars {
+        let n = program.intern_str(name);
+        let val = match v {
+            Var::Num(x) => Value::number(*x),
+            Var::Str(s) => Value::string(s),
+            Var::Arr(xs) => {
+                let items: Vec<Value> = xs.iter().map(|x| Value::number(*x)).collect();
+                program.make_array(&items)
+            }
+        };
+        let t = program.value_to_thunk(&val);
+        program.add_ext_var(n, &t);
+    }
+    let (ctx, _) = program
+        .span_manager_mut()
+        .insert_source_context(src.len());
+    let thunk = match program.load_source(ctx, src.as_bytes(), true, "<num>") {
+        Ok(t) => t,
+        Err(e) => {
+            let s = load_err(&e);
+            // "err lex Kind .." -> "lex Kind"
+            let w: Vec<&str> = s.split(' ').collect();
+            return (Res::Err(format!("{} {}", w[1], w[2])), None);
+        }
+    };
+    match program.eval_value(&thunk, &mut cb) {
+        Err(e) => (Res::Err(kind_name(&e)), None),
+        Ok(v) => {
+            let text = if want_text {
+                program.manifest_json(&v, false).ok()
+            } else {
+                None
+            };
+            match v.as_number() {
+                Some(x) => (Res::Num(x), text),
+                None => {
+                    let t = if v.is_null() {
+                        "null"
+                    } else if v.is_bool() {
+                        "boolean"
+                    } else if v.is_string() {
+                        "string"
+                    } else if v.is_array() {
+                        "array"
+                    } else if v.is_object() {
+                        "object"
+                    } else {
+                        "function"
+                    };
+                    (Res::NonNum(t.into()), text)
+                }
+            }
+        }
+    }
+}
+
+fn show(r: Res) -> String {
+    match r {
+        Res::Num(x) => format!("ok {:016x}", x.to_bits()),
+        Res::NonNum(_) => "nonnum".to_string(),
+        Res::Err(k) => format!("err {}", k),
+    }
+}
+
+/// Jsonnet source for a producer; operands are `a`, `b`, `c` / the array `xs`.
+fn template(name: &str) -> Option<(&'static str, usize)> {
+    // (source, arity); arity 99 = array
+    Some(match name {
+        "add" => ("a + b", 2),
+        "sub" => ("a - b", 2),
+        "mul" => ("a * b", 2),
+        "div" => ("a / b", 2),
+        "rem" => ("a % b", 2),
+        "shl" => ("a << b", 2),
+        "shr" => ("a >> b", 2),
+        "band" => ("a & b", 2),
+        "bor" => ("a | b", 2),
+        "bxor" => ("a ^ b", 2),
+        "neg" => ("-a", 1),
+        "pos" => ("+a", 1),
+        "bnot" => ("~a", 1),
+        "modulo" => ("std.modulo(a, b)", 2),
+        "mod" => ("std.mod(a, b)", 2),
+        "pow" => ("std.pow(a, b)", 2),
+        "atan2" => ("std.atan2(a, b)", 2),
+        "hypot" => ("std.hypot(a, b)", 2),
+        "exp" => ("std.exp(a)", 1),
+        "log" => ("std.log(a)", 1),
+        "log2" => ("std.log2(a)", 1),
+        "log10" => ("std.log10(a)", 1),
+        "sqrt" => ("std.sqrt(a)", 1),
+        "sin" => ("std.sin(a)", 1),
+        "cos" => ("std.cos(a)", 1),
+        "tan" => ("std.tan(a)", 1),
+        "asin" => ("std.asin(a)", 1),
+        "acos" => ("std.acos(a)", 1),
+        "atan" => ("std.atan(a)", 1),
+        "deg2rad" => ("std.deg2rad(a)", 1),
+        "rad2deg" => ("std.rad2deg(a)", 1),
+        "floor" => ("std.floor(a)", 1),
+        "ceil" => ("std.ceil(a)", 1),
+        "mantissa" => ("std.mantissa(a)", 1),
+        "exponent" => ("std.exponent(a)", 1),
+        "abs" => ("std.abs(a)", 1),
+        "sign" => ("std.sign(a)", 1),
+        "max" => ("std.max(a, b)", 2),
+        "min" => ("std.min(a, b)", 2),
+        "clamp" => ("std.clamp(a, b, c)", 3),
+        "round" => ("std.round(a)", 1),
+        "sum" => ("std.sum(xs)", 99),
+        "avg" => ("std.avg(xs)", 99),
+        "pi" => ("std.pi", 0),
+        _ => return None,
+    })
+}
+
+fn run_op(name: &str, args: &[&str]) -> Option<String> {
+    let (src, arity) = template(name)?;
+    let xs: Vec<f64> = args.iter().map(|a| bits(a)).collect::<Option<Vec<_>>>()?;
+    let prelude = "local a = std.extVar('a'), b = std.extVar('b'), c = std.extVar('c'), xs = std.extVar('xs'); ";
+    let full = format!("{}{}", prelude, src);
+    if arity == 99 {
+        let (r, _) = eval_vars(&full, &[("xs", Var::Arr(xs))], false);
+        return Some(show(r));
+    }
+    if xs.len() != arity {
+        return Some("err arity".into());
+    }
+    let names = ["a", "b", "c"];
+    let vars: Vec<(&str, Var)> = xs.iter().enumerate().map(|(i, x)| (names[i], Var::Num(*x))).collect();
+    let (r, _) = eval_vars(&full, &vars, false);
+    Some(show(r))
+}
+
+fn lex_err_name(e: &LexError) -> String {
+    variant_name(e)
+}
+
+fn run_lex(text: &[u8]) -> String {
+    let arena = Arena::new();
+    let ast_arena = Arena::new();
+    let str_interner = StrInterner::new();
+    let mut span_mgr = SpanManager::new();
+    let (span_ctx, _) = span_mgr.insert_source_context(text.len());
+    let mut lexer = Lexer::new(&arena, &ast_arena, &str_interner, &mut span_mgr, span_ctx, text);
+    let tok = lexer.next_token();
+    drop(lexer);
+    match tok {
+        Err(e) => format!("err {}", lex_err_name(&e)),
+        Ok(t) => match t.kind {
+            TokenKind::Number(n) => {
+                let (_, _, end) = span_mgr.get_span(t.span);
+                format!("ok {} {} {}", n.digits, n.exp, hex_enc(&text[end..]))
+            }
+            _ => "err NotADigit".into(),
+        },
+    }
+}
+
+pub fn handle(args: &[&str]) -> Option<String> {
+    match args {
+        ["op", name, rest @ ..] => run_op(name, rest),
+        ["conv", i] => {
+            let i: i64 = i.parse().ok()?;
+            // an integer-valued conversion site that can produce `i`
+            let (src, vars): (String, Vec<(&str, Var)>) = if (0..=0x10FFFF).contains(&i)
+                && !(0xD800..=0xDFFF).contains(&i)
+            {
+                // do_std_codepoint: f64::from(u32)
+                ("std.codepoint(std.extVar('s'))".into(),
+                 vec![("s", Var::Str(char::from_u32(i as u32)?.to_string()))])
+            } else if i >= i32::MIN as i64 && i <= i32::MAX as i64 {
+                // do_std_range: f64::from(i32)
+                (format!("std.range(std.extVar('a'), std.extVar('a'))[0]"), vec![("a", Var::Num(i as f64))])
+            } else {
+                return Some("err outOfType".into());
+            };
+            let (r, _) = eval_vars(&src, &vars, false);
+            Some(show(r))
+        }
+        ["lex", t] => Some(run_lex(&hex_dec(t)?)),
+        ["lit", t] | ["litvalue", t] => {
+            let text = String::from_utf8(hex_dec(t)?).ok()?;
+            let (r, _) = eval_vars(&text, &[], false);
+            Some(show(r))
+        }
+        ["dec", t] => {
+            let text = String::from_utf8(hex_dec(t)?).ok()?;
+            let (r, _) = eval_vars("std.parseJson(std.extVar('s'))", &[("s", Var::Str(text))], false);
+            Some(show(r))
+        }
+        ["parseint", t] => {
+            let text = String::from_utf8(hex_dec(t)?).ok()?;
+            let (r, _) = eval_vars("std.parseInt(std.extVar('s'))", &[("s", Var::Str(text))], false);
+            Some(show(r))
+        }
+        ["radix", r, t] => {
+            let text = String::from_utf8(hex_dec(t)?).ok()?;
+            let f = match *r {
+                "8" => "std.parseOctal(std.extVar('s'))",
+                "16" => "std.parseHex(std.extVar('s'))",
+                _ => return None,
+            };
+            let (r, _) = eval_vars(f, &[("s", Var::Str(text))], false);
+            Some(show(r))
+        }
+        ["yaml", t] => {
+            let text = String::from_utf8(hex_dec(t)?).ok()?;
+            let (r, _) = eval_vars("std.parseYaml(std.extVar('s'))", &[("s", Var::Str(text))], false);
+            Some(show(r))
+        }
+        ["show", b] => {
+            let x = bits(b)?;
+            let (_, text) = eval_vars("std.extVar('a')", &[("a", Var::Num(x))], true);
+            Some(match text {
+                Some(t) => format!("ok {}", hex_enc(t.as_bytes())),
+                None => "err manifest".into(),
+            })
+        }
+        ["shortest", b, t] => {
+            let x = bits(b)?;
+            let want = hex_dec(t)?;
+            let (_, text) = eval_vars("std.extVar('a')", &[("a", Var::Num(x))], true);
+            Some(match text {
+                Some(s) => if s.as_bytes() == &want[..] { "true".into() } else { "false".into() },
+                None => "err manifest".into(),
+            })
+        }
+        ["eval", src] => {
+            let text = String::from_utf8(hex_dec(src)?).ok()?;
+            let (r, _) = eval_vars(&text, &[], false);
+            Some(match r {
+                Res::NonNum(t) => format!("nonnum {}", t),
+                other => show(other),
+            })
+        }
+        _ => None,
+    }
 }
